@@ -9,6 +9,15 @@ use heathcliff::*;
 fn coef_view(s: &Setup, ct: &Ciphertext) -> Ciphertext { if ct.is_ntt_form() { s.evaluator.transform_from_ntt_new(ct) } else { ct.clone() } }
 fn budget(s: &Setup, ct: &Ciphertext) -> usize { s.decryptor.invariant_noise_budget(&coef_view(s, ct)) }
 
+/// "whenever the exact noise is below the decryption threshold decryption is exact": the ciphertext whose budget was just reported is
+/// decrypted by the library and by the exact-integer oracle (the `dec` line of the shared scheme driver makes the claim only where the
+/// exact phase is below the threshold)
+fn dec_case(out: &mut Out, s: &Setup, ct: &Ciphertext, cls: &str) {
+    let native_ntt = s.scheme == SchemeType::BGV;
+    let c = if ct.is_ntt_form() == native_ntt { ct.clone() } else if native_ntt { s.evaluator.transform_to_ntt_new(ct) } else { s.evaluator.transform_from_ntt_new(ct) };
+    out.case(&format!("dec {}", s.ct_case(&c)), &format!("dec-{}-cf{}", cls, if c.correction_factor() == 1 { "1" } else { "n" }), || s.dec_str(&c));
+}
+
 pub fn run(out: &mut Out, thorough: bool, seed: u64, _extra: &[String]) {
     let mut r = Rng::new(seed);
     let programs = if thorough { 300 } else { 20 };
@@ -52,6 +61,7 @@ pub fn run(out: &mut Out, thorough: bool, seed: u64, _extra: &[String]) {
                 for (nm, c) in cands {
                     let v = coef_view(&s, &c);
                     out.case(&format!("budget {}", s.ct_case(&v)), &format!("{}-level-k{}-{}", scheme_name(scheme), k, nm), || budget(&s, &c).to_string());
+                    dec_case(out, &s, &c, &format!("{}-level-k{}-{}", scheme_name(scheme), k, nm));
                 }
             }
         }
@@ -64,6 +74,7 @@ pub fn run(out: &mut Out, thorough: bool, seed: u64, _extra: &[String]) {
             let v = coef_view(&s, &item.ct);
             let b = budget(&s, &item.ct);
             out.case(&format!("budget {}", s.ct_case(&v)), &format!("{}-{}", cls, if b == 0 { "zero" } else if b < 8 { "low" } else { "pos" }), || b.to_string());
+            if b >= 1 { dec_case(out, &s, &item.ct, &cls); }
             // negation preserves the budget
             let nb = budget(&s, &s.evaluator.negate_new(&item.ct));
             if nb == b { out.raw(&format!("!OK negate_budget {} {} # neg-{}", b, nb, cls)); } else { out.raw(&format!("!FAIL negate_budget {} :: budget {} became {} after negation # neg-{}", s.ct_case(&v), b, nb, cls)); }
@@ -81,6 +92,7 @@ pub fn run(out: &mut Out, thorough: bool, seed: u64, _extra: &[String]) {
                     let b = budget(&s, &c);
                     let v = coef_view(&s, &c);
                     out.case(&format!("budget {}", s.ct_case(&v)), &format!("{}-sqchain{}-{}", scheme_name(scheme), d, if b == 0 { "zero" } else if b < 8 { "low" } else { "pos" }), || b.to_string());
+                    if b >= 1 { dec_case(out, &s, &c, &format!("{}-sqchain{}", scheme_name(scheme), d)); }
                     if b == 0 && d >= 1 { break; }
                 }
             }
